@@ -1,8 +1,8 @@
 SPECIFICATION Spec
 CONSTANTS
   Dev = {}
-  MaxCalls = 2
-  MaxOps = 5
+  MaxCalls = 3
+  MaxOps = 4
 INVARIANTS Complete NoUseLeft SuccsLive WriteLive
 PROPERTIES WriteExact
 VIEW View
